@@ -571,6 +571,23 @@ func (st *State) setArray(name string, sort Sort, term string) {
 func (st *State) havocArray(name string) string {
 	sort, ok := st.vc.arrSorts[name]
 	if !ok {
+		// ghost state that has not been touched yet on this path
+		if strings.HasPrefix(name, "GG_") {
+			if g, ok2 := st.vc.gglobals[strings.TrimPrefix(name, "GG_")]; ok2 {
+				sort, ok = ghostSort(g.GoTyp), true
+			}
+		} else if strings.HasPrefix(name, "G_") {
+			for k, g := range st.vc.gfields {
+				if "G_"+strings.TrimSuffix(k, "."+g.Field)+"__"+g.Field == name {
+					sort, ok = arrSort(SInt, ghostSort(g.GoTyp)), true
+				}
+			}
+		}
+		if ok {
+			st.vc.arrSorts[name] = sort
+		}
+	}
+	if !ok {
 		panic("havoc of unknown array " + name)
 	}
 	// make sure the initial version exists so that old() can refer to it
